@@ -1,5 +1,7 @@
 import LlirModel.Drv.EncOps
 import LlirModel.Drv.LitOps
+import LlirModel.Drv.WriterOps
+import LlirModel.Drv.EnumOps
 open Llir Llir.Drv
 
 def dispatch (op : String) (args : List String) : String :=
@@ -7,6 +9,12 @@ def dispatch (op : String) (args : List String) : String :=
   | some r => r
   | none =>
   match litOps op args with
+  | some r => r
+  | none =>
+  match writerOps op args with
+  | some r => r
+  | none =>
+  match enumOps op args with
   | some r => r
   | none => "unknown-op"
 
